@@ -27,9 +27,13 @@
 #include <sys/mman.h>
 
 /* ---------------- workloads (each uses one context it owns) ---------------- */
-static const char *PROG_A = "ma: module\nexport fa\nda: i64 3, 4\nfa: func i64, i64:n\n  local i64:r, i64:i, i64:p\n  mov r, 0\n  mov i, 0\n  mov p, da\nL1:\n  add r, r, i64:(p)\n  mul r, r, 3\n  add r, r, i\n  add i, i, 1\n  blt L1, i, n\n  ret r\nendfunc\nendmodule\n";
+static const char *PROG_A = "ma: module\nexport fa\nda: i64 3, 4\nfa: func i64, i64:n\n  local i64:r, i64:i, i64:p, i64:p0\n  mov r, 0\n  mov i, 0\n  mov p, da\nL1:\n  add r, r, i64:(p)\n  mul r, r, 3\n  add r, r, i\n  addo r, r, 9223372036854775000\n  bno L2\n  xor r, r, 5\nL2:\n  umulos p0, i, 70000\n  ubno L3\n  add r, r, 1\nL3:\n  add i, i, 1\n  blt L1, i, n\n  ret r\nendfunc\nendmodule\n";
 static const char *PROG_B = "mb: module\nexport fb\nimport fa\npa: proto i64, i64:n\nfb: func i64, i64:n\n  local i64:r, i64:t, d:x\n  call pa, fa, r, n\n  i2d x, r\n  dmul x, x, 0.5\n  d2i t, x\n  add r, r, t\n  ret r\nendfunc\nendmodule\n";
-static const char *CSRC = "static int sq (int x) { return x * x; }\nstruct P { int a; double d; };\nint work (int n) { struct P p = {n, 0.5}; int s = 0; for (int i = 0; i < n; i++) s += sq (i) + (int) (p.d * i); switch (n & 3) { case 0: s++; break; case 1: s += 2; break; default: s -= 1; } return s + p.a; }\n";
+static const char *CSRC = "static int sq (int x) { return x * x; }\nstruct P { int a; double d; };\n"
+  /* void pointers from alloca and label addresses, conditional with a void * arm, qualifiers, bit-fields, a string, varargs-free libc calls: more of c2mir's type machinery */
+  "struct B { unsigned f:3; int g:5; const char *s; };\nstatic int aux (int n) { char *q = __builtin_alloca (n + 8); const char *cs = \"xyz\"; void *lab = &&L; q[0] = 42; const void *v = n ? (const void *) cs : (void *) q;\n"
+  "  struct B b = {5, -3, cs}; goto *lab; L: return q[0] + b.f + b.g + (v != 0) + (int) sizeof (void *) + b.s[1]; }\n"
+  "int work (int n) { struct P p = {n, 0.5}; int s = 0; for (int i = 0; i < n; i++) s += sq (i) + (int) (p.d * i); switch (n & 3) { case 0: s++; break; case 1: s += 2; break; default: s -= 1; } return s + p.a + aux (n); }\n";
 typedef struct { const char *s; size_t pos; } sreader;
 static int sgetc (void *d) { sreader *r = d; return r->s[r->pos] ? (unsigned char) r->s[r->pos++] : EOF; }
 static __thread uint8_t *wbuf; static __thread size_t wlen, wcap, rpos;
